@@ -1,6 +1,6 @@
 (* C12: trading fees are exact and routed to the right pools.  Statements only. *)
 From MP.Model Require Import Prelude U128 SInt Feed Vamm VammOps Token World Engine Runtime.
-From MP.Proofs Require Import Tactics SIntFacts EngineArith CloseFacts MoreFacts CloseTxFacts OpenTxFacts.
+From MP.Proofs Require Import Tactics SIntFacts EngineArith CloseFacts MoreFacts CloseTxFacts OpenTxFacts FeeFlowFacts.
 From MP.Model Require Import Scenario.
 
 Theorem C12_fee_amounts : forall v quote toll spread, 0 <= quote ->
@@ -142,3 +142,39 @@ Theorem C12_close_position_tx_pool : forall f w t v lim funds w',
     bal (w_tok w') pool = bal (w_tok w) pool + fee_of vm (p_notional p) (v_toll (vc vm)).
 Proof. exact close_position_tx_pool. Qed.
 Print Assumptions C12_close_position_tx_pool.
+
+(* END TO END, every path.  Any successful OpenPosition - on no position, increasing, reducing, reversing with or
+   without a re-opening leg - raises the fee pool's balance by exactly floor(notional x toll ratio), notional =
+   margin x leverage: the reversal is charged once on the requested notional, not once per leg.  (Proved through
+   the whole message tree with a "what is still owed" potential: leaf messages pay what they say, the pending
+   replying swap is worth what its reply will pay; dispatch_owed.) *)
+Theorem C12_open_position_tx_toll : forall f w t v s m l lim funds w' vm,
+  exec_op f w (OEngine t (EOpenPosition v s m l lim) funds) = Ok w' ->
+  get_vamm w v = Ok vm -> 0 <= m -> 0 <= l -> 0 < e_dec (ec (w_eng w)) ->
+  let pool := e_feepool (ec (w_eng w)) in
+  pool <> A_ENGINE -> pool <> A_IFUND -> pool <> if_engine (w_if w) -> e_ifund (ec (w_eng w)) <> pool -> t <> pool ->
+  bal (w_tok w') pool = bal (w_tok w) pool + (m * l / e_dec (ec (w_eng w))) * v_toll (vc vm) / v_dec (vc vm).
+Proof. exact open_position_tx_toll. Qed.
+Print Assumptions C12_open_position_tx_toll.
+
+(* non-vacuity on the reversal path: with a 0.3% toll, trader 21 (long) sells more than the position is worth; the
+   transaction succeeds, the position flips, and the fee pool receives the toll on the requested notional once *)
+Definition c12_reversal_example : bool :=
+  match scenario with
+  | Ok w0 =>
+      let w := run w0 [OVamm 1 11 (WUpdateConfig (mkVupdate None None (Some 3000) (Some 1000) None None None None None))] in
+      let pool := e_feepool (ec (w_eng w)) in
+      match find_position (w_eng w) 11 21, get_vamm w 11, exec_op (-1) w (OEngine 21 (EOpenPosition 11 Sell 11000000 2000000 0) 0) with
+      | Some p, Ok vm, Ok w' =>
+          match find_position (w_eng w') 11 21 with
+          | Some p' => negb (sneg (p_size p)) && sneg (p_size p') && negb (sval (p_size p') =? 0) &&
+                       (bal (w_tok w') pool =? bal (w_tok w) pool + (11000000 * 2000000 / e_dec (ec (w_eng w))) * 3000 / v_dec (vc vm)) &&
+                       (0 <? (11000000 * 2000000 / e_dec (ec (w_eng w))) * 3000 / v_dec (vc vm))
+          | None => false
+          end
+      | _, _, _ => false
+      end
+  | Err _ => false
+  end.
+Example C12_reversal_toll_once_example : c12_reversal_example = true.
+Proof. vm_compute. reflexivity. Qed.
